@@ -36,6 +36,7 @@ type IdxCase struct {
 	Fresh    bool      `json:"fresh"`               // compare every answer with a freshly opened uncached index too
 	StaleTmp bool      `json:"stale_tmp,omitempty"` // an old index sits at <output>.tmp before the writer runs
 	Other    *DataSpec `json:"other,omitempty"`     // C08: a second index the same *Query values are executed on in between
+	NulSplit bool      `json:"nul_split,omitempty"` // corpus: queries naming a non-existent column that contains a NUL byte (known finding for wrapped leaves)
 }
 
 func toExpr(e *Ex) updog.Expression {
@@ -87,6 +88,35 @@ func resString(res *updog.Result, err error) string {
 		fmt.Fprintf(&b, ":%d", g.Count)
 	}
 	return b.String()
+}
+
+// safeExecuteRes is safeExecute that also hands out the Result value itself (nil on error or panic)
+func safeExecuteRes(idx *updog.Index, q *updog.Query) (res *updog.Result, s string) {
+	defer func() {
+		if r := recover(); r != nil {
+			res, s = nil, fmt.Sprintf("panic: %v", r)
+		}
+	}()
+	r, err := idx.Execute(q)
+	if err != nil {
+		return nil, resString(nil, err)
+	}
+	return r, resString(r, nil)
+}
+
+// scribble overwrites everything a caller can reach in a Result it was given (it owns it)
+func scribble(r *updog.Result) {
+	if r == nil {
+		return
+	}
+	r.Count = 0xdead
+	for i := range r.Groups {
+		r.Groups[i].Count = 0xbeef
+		for j := range r.Groups[i].Fields {
+			r.Groups[i].Fields[j].Value = "(scribbled)"
+			r.Groups[i].Fields[j].Column = "(scribbled)"
+		}
+	}
 }
 
 func safeExecute(idx *updog.Index, q *updog.Query) (s string) {
@@ -204,6 +234,7 @@ func buildIndexFileInner(kind string, rows []map[string]string, path string) (id
 }
 
 var openCounter atomic.Int64
+var openHangs atomic.Int64
 var procsPinned atomic.Bool // set while a caller controls GOMAXPROCS itself
 
 func openIdx(path string, preload bool, cache int64) (*updog.Index, *updog.LRUCache, error) {
@@ -215,6 +246,11 @@ func openIdx(path string, preload bool, cache int64) (*updog.Index, *updog.LRUCa
 	}
 	if preload {
 		opts = append(opts, updog.WithPreloadedData())
+	}
+	if openHangs.Load() >= 3 {
+		// every hang leaves a blocked goroutine behind and costs a full watchdog period: after three of them the run has
+		// its verdict, further opens are not attempted
+		return nil, nil, fmt.Errorf("hang: OpenIndex hung %d times already in this run (not attempted again)", openHangs.Load())
 	}
 	type res struct {
 		idx *updog.Index
@@ -241,6 +277,7 @@ func openIdx(path string, preload bool, cache int64) (*updog.Index, *updog.LRUCa
 	case r := <-ch:
 		return r.idx, lru, r.err
 	case <-time.After(20 * time.Second * watchdogScale):
+		openHangs.Add(1)
 		return nil, nil, fmt.Errorf("hang: OpenIndex did not return in time")
 	}
 }
@@ -529,6 +566,8 @@ func runIdxCase(o *Oracle, c *IdxCase, rep *Report, fl idxFlags) {
 		}
 	}
 
+	var prevRes *updog.Result
+	var prevStr string
 	for qi := range c.Queries {
 		q := &c.Queries[qi]
 		toks := q.Toks()
@@ -551,8 +590,16 @@ func runIdxCase(o *Oracle, c *IdxCase, rep *Report, fl idxFlags) {
 				restore()
 			}
 		}
-		got := safeExecute(idx, uq)
+		res, got := safeExecuteRes(idx, uq)
 		want := o.Ask("idx q " + toks)
+		if prevRes != nil {
+			// a Result is a value the caller keeps: executing other queries (or the same Query value again) later must
+			// not change what an earlier call returned
+			if now := resString(prevRes, nil); now != prevStr {
+				viol("history", fl.prop+":earlier-result-changed", fmt.Sprintf("the Result returned for query %d changed after query %d (%s) was executed", qi-1, qi, toks), prevStr, now)
+			}
+		}
+		prevRes, prevStr = res, got
 		nontrivial := strings.HasPrefix(want, "ok") && !strings.HasPrefix(want, "ok 0") && q.E.Size() > 1
 		rep.Eval(fmt.Sprintf("%d|%s|%s|%v|%d|%s", c.Data.Seed, c.Writer, toks, c.Preload, c.Cache, want), nontrivial)
 		rep.Count(fmt.Sprintf("depth=%d", min(q.E.Depth(), 6)))
@@ -561,6 +608,13 @@ func runIdxCase(o *Oracle, c *IdxCase, rep *Report, fl idxFlags) {
 			rep.Count("expected-error")
 		}
 		sigBase := fl.prop
+		if c.NulSplit && got != want && q.E.Op != "E" && q.E.Op != "O" && want == "err" && c.Cache >= 0 {
+			// known finding (same root cause as D15): the value index of ("a\x00b","c") and ("a","b\x00c") is one number, so
+			// a NOT/AND whose cached key derives from it is answered from the cache before its operand's column is checked
+			viol("history", "C03:nul-in-query-column-cached-answer", fmt.Sprintf("query %d (%s) names a column that does not exist (its name contains a NUL byte) and is answered from the cache entry of another expression", qi, toks), want, got)
+			prevRes, prevStr = nil, ""
+			continue
+		}
 		if got != want {
 			kind := "input"
 			if qi > 0 && c.Cache >= 0 {
@@ -596,6 +650,12 @@ func runIdxCase(o *Oracle, c *IdxCase, rep *Report, fl idxFlags) {
 			if s := o.Ask("idx qs " + toks); s != got {
 				viol("input", sigBase+":spec-mismatch", fmt.Sprintf("query %d (%s) differs from the specification", qi, toks), s, got)
 			}
+		}
+		if q.Repeat > 0 {
+			// the caller rewrites a Result it was given (it owns it) and executes the same Query value again
+			r2, _ := safeExecuteRes(idx, uq)
+			scribble(r2)
+			rep.Count("scribbled-results")
 		}
 		for k := 0; k < q.Repeat; k++ {
 			again := safeExecute(idx, uq)
